@@ -38,7 +38,8 @@ def small_schema():
                    F("f", 8, "map", "map", kkind="string", vkind="int32"), F("m", 9, "message", msg="Inner"),
                    F("r", 10, "string", "repeated"), F("en", 11, "enum", enum="E"), F("fx", 12, "fixed32", "optional"),
                    F("w", 13, "wrap", vkind="int32"), F("bl", 14, "bool"), F("i64", 15, "int64"), F("rb", 16, "bool", "repeated"),
-                   F("rf", 17, "fixed64", "repeated"), F("by", 18, "bytes"), F("fl", 19, "float")]}
+                   F("rf", 17, "fixed64", "repeated"), F("by", 18, "bytes"), F("fl", 19, "float"),
+                   F("fm", 20, "map", "map", kkind="int32", vkind="message", msg="Inner"), F("fk", 21, "map", "map", kkind="bool", vkind="string")]}
     return {"types": types, "enums": {"E": gen.ENUM_E}}
 
 
@@ -58,6 +59,8 @@ FIELD_VALUES = {
     "r": [{"k": "list", "xs": [Sv("a"), Sv("")]}], "en": [I(1), I(-1), I(7)], "fx": [I(0), I(2**32 - 1)],
     "w": [{"k": "wrapv", "v": I(0)}, {"k": "wrapv", "v": I(-9)}], "bl": [{"k": "bool", "v": True}], "i64": [I(-2**63), I(2**63 - 1)],
     "rb": [{"k": "list", "xs": [{"k": "bool", "v": True}, {"k": "bool", "v": False}, {"k": "bool", "v": True}]}],
+    "fm": [{"k": "map", "es": [[I(0), {"k": "msg", "m": {"x": I(0), "s": Sv("")}}], [I(-3), {"k": "msg", "m": {"x": I(-5), "s": Sv("é")}}]]}],
+    "fk": [{"k": "map", "es": [[{"k": "bool", "v": False}, Sv("")], [{"k": "bool", "v": True}, Sv("t")]]}],
     "rf": [{"k": "list", "xs": [I(2**64 - 1), I(1)]}], "by": [{"k": "bytes", "b": [0, 255]}], "fl": [av.f32(-0.0), av.f32(float("nan"))],
 }
 
